@@ -250,16 +250,19 @@ def validate_odata_term(term, seed: int = 0, cap: int = 160) -> dict:
 
 
 def tasks() -> List[Tuple[str, Any]]:
-    return [("sql", e) for e in SQL_EXPRS] + [("odata", t) for t in ODATA_TERMS]
+    return [("sql", e) for e in SQL_EXPRS] + [("odata", t) for t in ODATA_TERMS] + [("relational", None)]
 
 
 def run_task(task: Tuple[str, Any], seed: int = 0) -> dict:
     kind, payload = task
     try:
-        r = validate_sql_expr(payload, seed) if kind == "sql" else validate_odata_term(payload, seed)
+        if kind == "relational":
+            r = validate_relational(seed)
+        else:
+            r = validate_sql_expr(payload, seed) if kind == "sql" else validate_odata_term(payload, seed)
     except Exception as e:                       # noqa: BLE001 - the validation itself broke: harness error
         import traceback
-        r = {"expr": payload if kind == "sql" else G.to_text(payload), "rows": 0, "skipped": 0, "solver_rows": 0,
+        r = {"expr": payload if kind == "sql" else (kind if payload is None else G.to_text(payload)), "rows": 0, "skipped": 0, "solver_rows": 0,
              "mismatches": [{"kind": "exception", "error": f"{type(e).__name__}: {e}", "tb": traceback.format_exc(limit=4)}]}
     r["task"] = kind
     return r
@@ -317,3 +320,87 @@ def validate_parser_on_pinned(repo) -> dict:
         else:
             ok += 1
     return {"ok": ok, "rejected": rejected, "broken": broken}
+
+
+# ---------------------------------------------------------------------- relational part of the model (EXISTS, joins)
+def _rel_specs():
+    from .symdb import Col, TableSpec
+    parent = TableSpec("parent", [Col("id", "int", nullable=False, pk=True), Col("n", "int"), Col("name", "str")], slots=2)
+    child = TableSpec("child", [Col("id", "int", nullable=False, pk=True), Col("pid", "int", fk="parent"),
+                                Col("k", "int"), Col("label", "str")], slots=3)
+    return [parent, child]
+
+
+REL_WHERE = [
+    'EXISTS (SELECT 1 AS "x" FROM "child" U0 WHERE U0."pid" = "parent"."id" AND U0."k" = 1 LIMIT 1)',
+    'NOT EXISTS (SELECT 1 FROM "child" U0 WHERE U0."pid" = "parent"."id" AND NOT (U0."k" > "parent"."n"))',
+    'EXISTS (SELECT 1 FROM "child" U0 LEFT OUTER JOIN "parent" U1 ON (U0."pid" = U1."id") WHERE U1."n" IS NULL AND U0."k" = "parent"."n")',
+    'EXISTS (SELECT 1 FROM "child" U0 INNER JOIN "parent" U1 ON (U0."pid" = U1."id") WHERE U1."id" = "parent"."id" AND U0."label" LIKE "parent"."name" || \'%\')',
+    '"parent"."n" = 1 OR NOT EXISTS (SELECT 1 FROM "child" c WHERE c."pid" = "parent"."id")',
+]
+
+
+def _full_subst(db: SymDB, content: Dict[str, List[dict]]) -> List[Tuple[Any, Any]]:
+    pairs = []
+    for tname, slots in db.tables.items():
+        rows = content.get(tname, [])
+        for i, s in enumerate(slots):
+            row = rows[i] if i < len(rows) else None
+            if not z3.is_true(s.present):
+                pairs.append((s.present, z3.BoolVal(row is not None)))
+            for name, v in s.cells.items():
+                py = row.get(name) if row else None
+                if not z3.is_true(v.null) and not z3.is_false(v.null):
+                    pairs.append((v.null, z3.BoolVal(py is None)))
+                if v.kind == "int":
+                    dflt = (i + 1) if s.spec.col(name).pk else 0
+                    pairs.append((v.val, V.bv(int(py) if py is not None else dflt)))
+                elif v.kind == "bool":
+                    pairs.append((v.val, z3.BoolVal(bool(py))))
+                else:
+                    txt = py or ""
+                    pairs.append((v.len, V.lv(len(txt))))
+                    for k, c in enumerate(v.c):
+                        pairs.append((c, V.cv(V.IDX[txt[k]] if k < len(txt) else 0)))
+    return pairs
+
+
+def validate_relational(seed: int = 0, rounds: int = 60) -> dict:
+    """EXISTS / JOIN unrolling of the model vs the real sqlite3 on random small databases."""
+    rng = random.Random(f"rel:{seed}")
+    out = {"expr": "relational (EXISTS / JOIN)", "rows": 0, "skipped": 0, "solver_rows": 0, "mismatches": []}
+    specs = _rel_specs()
+    for where in REL_WHERE:
+        tree = SP.parse_expr(where, "sqlite")
+        db = SymDB(specs)
+        keeps = {}
+        model = SqliteModel(db)
+        for slot in db.tables["parent"]:
+            model.scope = [{"parent": slot}]
+            keeps[slot.index] = z3.And(slot.present, model.where(tree))
+        for _ in range(rounds):
+            nparent = rng.randint(0, 2)
+            parents = [{"id": i + 1, "n": rng.choice([None, 0, 1, 2]), "name": rng.choice([None, "", "a", "ab", "%"])}
+                       for i in range(nparent)]
+            children = [{"id": j + 1, "pid": rng.choice([None] + [p["id"] for p in parents]),
+                         "k": rng.choice([None, 0, 1, 2, 3]), "label": rng.choice([None, "", "a", "ab", "b", "aab"])}
+                        for j in range(rng.randint(0, 3))]
+            content = {"parent": parents, "child": children}
+            pairs = _full_subst(db, content)
+            if not _side_ok(model.side, pairs):
+                out["skipped"] += 1
+                continue
+            want = sorted(parents[i]["id"] for i in range(nparent) if z3.is_true(_concrete(keeps[i], pairs)))
+            conn = sqlite3.connect(":memory:")
+            db.create(conn)
+            db.load(conn, content)
+            try:
+                got = sorted(r[0] for r in conn.execute(f'SELECT "id" FROM "parent" WHERE {where}').fetchall())
+            except sqlite3.Error as e:
+                got = f"sqlite3 error: {e}"
+            conn.close()
+            out["rows"] += 1
+            if got != want and len(out["mismatches"]) < 5:
+                out["mismatches"].append({"kind": "sqlite-model-relational", "where": where, "db": content,
+                                          "model": want, "sqlite3": got})
+    return out
